@@ -251,8 +251,8 @@ static std::string cap_end()
 // random keys exercise all eight residues (code that reads the key in words must not depend on where the caller keeps it)
 static u8_t *place_key(const bytes &k)
 {
-  alignas(16) static u8_t store[4][96];
-  static int slot = 0;
+  alignas(16) static thread_local u8_t store[4][96];      // per thread: the op `par` calls this from several threads
+  static thread_local int slot = 0;
   u8_t *base = store[slot++ & 3];
   size_t off = k.empty() ? 0 : (k[0] & 7);
   memset(base, 0xA5, 96);
@@ -623,6 +623,41 @@ static void isolated(const std::string &id, const std::vector<std::vector<std::s
   fflush(res);
 }
 
+// results computed DURING STATIC INITIALISATION of this translation unit (which is linked before the library's objects): a library
+// that prepares tables in static initialisers of its own must still give the standard answers to a caller running that early
+struct StaticInitProbe
+{
+  unsigned char enc[16], dec[16], dig[3][32];
+  StaticInitProbe()
+  {
+    unsigned char k[16], b[16];
+    for (int i = 0; i < 16; ++i)
+    {
+      k[i] = (unsigned char)i;
+      b[i] = (unsigned char)(i * 0x11);
+    }
+    memcpy(enc, b, 16);
+    memcpy(dec, b, 16);
+    {
+      encryaes e(k);
+      e.runaes_128bit(enc);
+    }
+    {
+      decryaes d(k);
+      d.runaes_128bit(dec);
+    }
+    for (int a = 0; a < 3; ++a)
+    {
+      HashFactory hf;
+      Hashmaster *h = hf.getHasher(HashFactory::getType((u8_t)a));
+      unsigned char m[3] = {'a', 'b', 'c'};
+      memset(dig[a], 0, 32);
+      h->getStringHash(m, 3, dig[a]);
+      delete h;
+    }
+  }
+};
+static StaticInitProbe static_init_probe;
 static Hashmaster *hasher(int a)
 {
   HashFactory hf;
@@ -654,6 +689,54 @@ static std::string handle(std::vector<std::string> &a)
       d.runaes_128bit(bb + ob);
     }
     return hex(bb + ob, 16);
+  }
+  if (c == "sinit")
+    return hex(static_init_probe.enc, 16) + " " + hex(static_init_probe.dec, 16) + " " + hex(static_init_probe.dig[0], 20) + " " + hex(static_init_probe.dig[1], 16) + " " + hex(static_init_probe.dig[2], 32);
+  if (c == "aescopy")
+  {
+    // aescopy e|d KEY BLOCK : the cipher object is COPIED (passed by value, as into a container), the copy is used and destroyed,
+    // the heap is churned, then the ORIGINAL transforms BLOCK: a copy must not take anything away from the original
+    bytes k = unhex(a[2]), b0 = unhex(a[3]);
+    k.resize(16);
+    b0.resize(16);
+    unsigned char bb[16], scratch[16];
+    memcpy(bb, b0.data(), 16);
+    memset(scratch, 0x5A, 16);
+    auto churn = []() {
+      std::vector<unsigned char *> v;
+      for (int i = 0; i < 12; ++i)
+      {
+        v.push_back(new unsigned char[176]);
+        memset(v.back(), 0xC3, 176);
+      }
+      for (auto p : v)
+        delete[] p;
+    };
+    if (a[1] == "e")
+    {
+      encryaes e(k.data());
+      {
+        encryaes copy = e;
+        copy.runaes_128bit(scratch);
+      }
+      churn();
+      e.runaes_128bit(bb);
+      std::string r = hex(bb, 16);
+      fprintf(res, "%s %s\n", "__aescopy", r.c_str());
+      fflush(res);
+      _exit(0);      // leave without destructors: a shared resource would be released twice at scope end, which is not the question here
+    }
+    decryaes d(k.data());
+    {
+      decryaes copy = d;
+      copy.runaes_128bit(scratch);
+    }
+    churn();
+    d.runaes_128bit(bb);
+    std::string r = hex(bb, 16);
+    fprintf(res, "%s %s\n", "__aescopy", r.c_str());
+    fflush(res);
+    _exit(0);
   }
   if (c == "mode" || c == "modes")
   {
@@ -722,6 +805,49 @@ static std::string handle(std::vector<std::string> &a)
     unsigned char dummy = 0;
     h->getStringHash(m.empty() ? &dummy : m.data(), m.size(), out);
     std::string r = hex(out, h->gethlen());
+    delete h;
+    return r;
+  }
+  if (c == "hseq")
+  {
+    // hseq ALG item;item;... : ONE hasher object digests several messages one after the other (fields of an item separated by ','):
+    //   s,MSG -> getStringHash ; f,MSG -> getFileHash over a file holding MSG ; i,MSG,OFF -> getStringHash with the RESULT buffer
+    //   inside the message buffer at offset OFF (in place / overlapping; the message is consumed before the result is written)
+    Hashmaster *h = hasher(atoi(a[1].c_str()));
+    std::string r;
+    for (auto &o : split(a[2], ';'))
+    {
+      std::vector<std::string> f = split(o, ',');
+      bytes m = unhex(f.size() > 1 ? f[1] : "");
+      unsigned char out[64];
+      std::string one;
+      if (f[0] == "s")
+      {
+        unsigned char dummy = 0;
+        h->getStringHash(m.empty() ? &dummy : m.data(), m.size(), out);
+        one = hex(out, h->gethlen());
+      }
+      else if (f[0] == "i")
+      {
+        size_t off = strtoul(f[2].c_str(), NULL, 10), n = m.size();
+        bytes buf = m;
+        buf.resize((off > n ? off : n) + 64, 0xEE);
+        h->getStringHash(buf.data(), n, buf.data() + off);
+        one = hex(buf.data() + off, h->gethlen());
+      }
+      else
+      {
+        std::string p = write_tmp(m);
+        FILE *fp = fopen(p.c_str(), "rb");
+        buffer64 *buf = new filebuffer64(fp);
+        h->getFileHash(buf, out);
+        one = hex(out, h->gethlen());
+        delete (filebuffer64 *)buf;
+        fclose(fp);
+        unlink(p.c_str());
+      }
+      r += (r.empty() ? "" : " ") + one;
+    }
     delete h;
     return r;
   }
